@@ -50,7 +50,93 @@ func govcModelQuiesce(db *DB) {
 	db.rwLock.Unlock()
 }
 
+// govcModelScenarios: fixed programs for corners that random 40-step programs do not reach.
+func govcModelScenarios(t *testing.T) {
+	// (1) a memstore generation that logs far more than its own size: 1500 overwrites and deletes of two keys keep the
+	// memstore below its limit while the log grows past 100x that limit. After a clean restart the last writes must win.
+	dir, err := os.MkdirTemp("", "govc_c01burst")
+	if err != nil {
+		t.Fatal(err)
+	}
+	defer os.RemoveAll(dir)
+	o := govcModelOpts{256, 2, 1 << 20, 1.0, 4096, 4096}
+	db, err := govcModelOpen(t, dir, o)
+	if err != nil {
+		t.Fatal(err)
+	}
+	for i := 0; i < 1500; i++ {
+		if err := db.Put("a", fmt.Sprintf("v%06d", i)); err != nil {
+			t.Fatal(err)
+		}
+		if i%3 == 0 {
+			if err := db.Delete("b"); err != nil {
+				t.Fatal(err)
+			}
+		} else if err := db.Put("b", fmt.Sprintf("w%06d", i)); err != nil {
+			t.Fatal(err)
+		}
+	}
+	if err := db.Close(); err != nil {
+		t.Fatal(err)
+	}
+	db, err = govcModelOpen(t, dir, o)
+	if err != nil {
+		t.Fatalf("REPRODUCED: overwrite burst (1500 overwrites of two keys under a 256-byte memstore limit): re-open failed: %v", err)
+	}
+	if v, err := db.Get("a"); err != nil || v != "v001499" {
+		t.Fatalf("REPRODUCED: overwrite burst (1500 overwrites of two keys under a 256-byte memstore limit), after a clean restart Get(a) = (%q, %v), the last put wrote \"v001499\"", v, err)
+	}
+	if v, err := db.Get("b"); err != nil || v != "w001499" {
+		t.Fatalf("REPRODUCED: overwrite burst, after a clean restart Get(b) = (%q, %v), the last put wrote \"w001499\"", v, err)
+	}
+	db.Close()
+
+	// (2) tables that hold only tombstones, compaction threshold 0: compacting them leaves an empty table, which is then
+	// selected on its own. No compaction cycle may fail (a failing cycle terminates the process in the background compactor).
+	dir2, err := os.MkdirTemp("", "govc_c01empty")
+	if err != nil {
+		t.Fatal(err)
+	}
+	defer os.RemoveAll(dir2)
+	db, err = govcModelOpen(t, dir2, govcModelOpts{1 << 20, 0, 1 << 20, 0.5, 4096, 4096})
+	if err != nil {
+		t.Fatal(err)
+	}
+	for round := 0; round < 3; round++ {
+		k := fmt.Sprintf("gone-%d", round)
+		if err := db.Put(k, "x"); err != nil {
+			t.Fatal(err)
+		}
+		if err := db.Delete(k); err != nil {
+			t.Fatal(err)
+		}
+		db.rwLock.Lock()
+		err := db.rotateWalAndFlushMemstore()
+		db.rwLock.Unlock()
+		if err != nil {
+			t.Fatal(err)
+		}
+		govcModelQuiesce(db)
+		for c := 0; c < 2; c++ {
+			meta, err := executeCompaction(db)
+			if err != nil {
+				t.Fatalf("REPRODUCED: tombstone-only tables, compaction threshold 0, round %d cycle %d: the compaction cycle failed: %v", round, c, err)
+			}
+			if meta != nil {
+				if err := db.sstableManager.reflectCompactionResult(meta); err != nil {
+					t.Fatalf("REPRODUCED: tombstone-only tables: installing the compacted table failed: %v", err)
+				}
+			}
+		}
+		if _, err := db.Get(k); !errors.Is(err, ErrNotFound) {
+			t.Fatalf("REPRODUCED: tombstone-only tables: Get(%q) = %v after delete and compaction", k, err)
+		}
+	}
+	db.Close()
+}
+
 func TestReplay_db_program_model(t *testing.T) {
+	govcModelScenarios(t)
 	programs := 60
 	if os.Getenv("GOVC_TIER") == "thorough" {
 		programs = 600
